@@ -77,6 +77,17 @@ func (p *pTolerant) Number() float64 {
 }
 func (p *pTolerant) Boolean() bool { return true }
 
+// vAll implements Stringer, Number and Boolean with unrelated answers
+type vAll struct {
+	s string
+	f float64
+	b bool
+}
+
+func (v vAll) String() string  { return v.s }
+func (v vAll) Number() float64 { return v.f }
+func (v vAll) Boolean() bool   { return v.b }
+
 // customSafe is an application's own implementation of stick.SafeValue (wrappers may nest).
 type customSafe struct{ v stick.Value }
 
@@ -232,6 +243,17 @@ func fixtureByID(id string) (stick.Value, error) {
 		return numOfKind(arg(1), float64(q)/64)
 	case "big":
 		return bigOfKind(arg(1), arg(2))
+	case "all":
+		// all:<string>:<q>:<t|f>
+		p4 := strings.SplitN(id, ":", 4)
+		if len(p4) != 4 {
+			return nil, fmt.Errorf("bad fixture id %q", id)
+		}
+		q, err := strconv.ParseInt(p4[2], 10, 64)
+		if err != nil {
+			return nil, err
+		}
+		return vAll{p4[1], float64(q) / 64, p4[3] == "t"}, nil
 	case "time":
 		return time.Parse(time.RFC3339, id[5:])
 	case "huge":
